@@ -138,7 +138,7 @@ func c10Sign(r *core.Run) {
 		w.Sleep(time.Second)
 		for i := 0; i < nreq; i++ {
 			rq := &c10Req{ID: i}
-			rq.Case = genSignCase(t, fmt.Sprintf("%dt%d", r.No, i), []string{"ps", "pe-coff", "cat", "msi", "appmanifest", "jar"})
+			rq.Case = genSignCase(t, fmt.Sprintf("%dt%d", r.No, i), []string{"ps", "pe-coff", "cat", "msi", "appmanifest", "jar", "vsix", "mach-o"})
 			// (jar output depends on Go map iteration order, which cannot be
 			// seeded: repeating a jar request would make cache hits a coin flip)
 			var prev *c10Req
